@@ -152,6 +152,7 @@ class CMSSystem(System):
                         evs.append(("remove", i, n))
         if cfg["cls"] not in ("hh", "st"):
             evs += [("reload", "bytes"), ("reload", "file")]
+            evs.append(("add_alt_long", 0, 1))  # hash list longer than the depth: refused, nothing may change
         evs.append(("clear",))
         return evs
 
@@ -172,6 +173,18 @@ class CMSSystem(System):
                 if i not in m["ever"]:
                     m["ever"] = sorted(m["ever"] + [i])
             return obs
+        if kind == "add_alt_long":
+            hs = hf(keys[ev[1]], f.depth + 2)
+            before = call(bytes, f)
+            obs = call(f.add_alt, hs, ev[2])
+            if obs[0] == "ok":
+                # accepted after all: then it is an addition like any other
+                m["true"][ev[1]] += ev[2]
+                m["total"] += ev[2]
+                if ev[1] not in m["ever"]:
+                    m["ever"] = sorted(m["ever"] + [ev[1]])
+                return obs
+            return ("refused", obs[1], call(bytes, f) == before)
         if kind == "clear":
             obs = call(f.clear)
             if obs[0] == "ok":
@@ -225,6 +238,11 @@ class CMSSystem(System):
             if prop in props:
                 out.append(Violation(prop, oracle, detail))
 
+        if obs[0] == "refused":
+            if not obs[2]:
+                for p in ("C02", "C14", "C19", "C05"):
+                    bad(p, "cms.refused_add_changes_nothing", {"ev": ev, "error": obs[1]})
+            return out
         if obs[0] != "ok":
             if ev[0] == "reload":
                 bad("C05", "cms.reload_event", {"ev": ev, "obs": obs, "cls": cfg["cls"]})
@@ -342,7 +360,9 @@ class CMSSystem(System):
         try:
             path = os.path.join(tmp, "x.cms")
             e = call(f.export, path)
-            loaders = [("frombytes", lambda: cls.frombytes(blob, hash_function=hf, **kw))]
+            loaders = [("frombytes", lambda: cls.frombytes(blob, hash_function=hf, **kw)),
+                       ("frombytes(bytearray)", lambda: cls.frombytes(bytearray(blob), hash_function=hf, **kw)),
+                       ("frombytes(memoryview)", lambda: cls.frombytes(memoryview(blob), hash_function=hf, **kw))]
             if e[0] != "ok":
                 bad("C05", "cms.export_path", {"obs": e})
             else:
